@@ -1589,16 +1589,6 @@ theorem eqvL_refl (fold : Str → Str) (ks : List Node) : eqvL fold ks ks = true
   have := eqv_refl fold (.grp ks)
   simpa [eqv] using this
 
-/-- **defexpand_perm_partial**: the repaired check accepts every Def-expand group whose (recursively sorted)
-children are a permutation of the (recursively sorted) expected children `[tag, content[# := v]]`, i.e. every
-group equal to the expansion up to sibling order. -/
-theorem defexpand_perm_partial (fold : Str → Str) (dd : DefDict) (t : Tag) (ks cs : List Node)
-    (he : expansion fold dd t = .ok cs) (hp : (ks.map (sortN fold)).Perm ((Node.tag t :: cs).map (sortN fold)))
-    (hinj : ∀ a ∈ ks.map (sortN fold), ∀ b ∈ ks.map (sortN fold), str a = str b → a = b) :
-    checkDefExpand fold true dd t (some ks) = [] := by
-  rw [(defexpand_accept_iff fold dd t ks).1]
-  exact ⟨cs, he, by rw [sortG_perm_partial fold ks _ hp hinj]; exact eqvL_refl fold _⟩
-
 /-- **defexpand_order_counterexample**: for `(Definition/A, (Red, Blue))` the group `(Def-expand/A, (Red, Blue))`
 — the definition's own content, a sibling permutation of the expansion — is rejected by the original comparison
 and accepted by the repaired one; so is `((Blue, Red), Def-expand/A)`; a wrong content is rejected by both. -/
@@ -1609,6 +1599,244 @@ theorem defexpand_order_counterexample :
     checkDefExpand id true ddA tDeA (some [.grp [.tag tBlue, .tag tRed], .tag tDeA]) = [] ∧
     checkDefExpand id true ddA tDeA (some [.tag tDeA, .grp [.tag tRed]]) = [.defExpandInvalid] := by
   decide
+
+/-! ## Canonical forms: `sorted()` is idempotent and commutes with forgetting the bookkeeping fields -/
+
+section
+variable (fold : Str → Str)
+
+theorem isort_of_pairwise (le : Node → Node → Bool) :
+    ∀ l : List Node, l.Pairwise (fun a b => le a b = true) → isort le l = l
+  | [], _ => rfl
+  | x :: xs, h => by
+    obtain ⟨hx, hxs⟩ := List.pairwise_cons.1 h
+    simp only [isort, isort_of_pairwise le xs hxs]
+    cases xs with
+    | nil => rfl
+    | cons y ys => simp [insertBy, hx y (by simp)]
+
+theorem isTag_not_isGrp (n : Node) : isTag n = !isGrp n := by cases n <;> rfl
+theorem isGrp_not_isTag (n : Node) : isGrp n = !isTag n := by cases n <;> rfl
+
+theorem arrange_arrange (l : List Node) : arrange fold (arrange fold l) = arrange fold l := by
+  have hA : ∀ x ∈ isort (leKey fold) (l.filter isTag), isTag x = true :=
+    fun x hx => (List.mem_filter.1 ((isort_perm _ _).mem_iff.1 hx)).2
+  have hB : ∀ x ∈ isort (leKey fold) (l.filter isGrp), isGrp x = true :=
+    fun x hx => (List.mem_filter.1 ((isort_perm _ _).mem_iff.1 hx)).2
+  have e1 : (isort (leKey fold) (l.filter isTag)).filter isTag = isort (leKey fold) (l.filter isTag) :=
+    List.filter_eq_self.2 hA
+  have e2 : (isort (leKey fold) (l.filter isGrp)).filter isTag = [] :=
+    List.filter_eq_nil_iff.2 (fun x hx => by simp [isTag_not_isGrp, hB x hx])
+  have e3 : (isort (leKey fold) (l.filter isGrp)).filter isGrp = isort (leKey fold) (l.filter isGrp) :=
+    List.filter_eq_self.2 hB
+  have e4 : (isort (leKey fold) (l.filter isTag)).filter isGrp = [] :=
+    List.filter_eq_nil_iff.2 (fun x hx => by simp [isGrp_not_isTag, hA x hx])
+  have h1 : (arrange fold l).filter isTag = isort (leKey fold) (l.filter isTag) := by
+    unfold arrange; rw [List.filter_append, e1, e2, List.append_nil]
+  have h2 : (arrange fold l).filter isGrp = isort (leKey fold) (l.filter isGrp) := by
+    unfold arrange; rw [List.filter_append, e3, e4, List.nil_append]
+  rw [show arrange fold (arrange fold l) = isort (leKey fold) ((arrange fold l).filter isTag) ++
+      isort (leKey fold) ((arrange fold l).filter isGrp) from rfl, h1, h2,
+    isort_of_pairwise _ _ (isort_pairwise fold _), isort_of_pairwise _ _ (isort_pairwise fold _)]
+  rfl
+
+/-- **sortN_idem**: a sorted tree is a fixed point of `sorted()` (canonical forms are canonical). -/
+theorem sortN_idem : ∀ n, sortN fold (sortN fold n) = sortN fold n := by
+  apply node_ind
+  · intro t; simp [sortN]
+  · intro ks ih
+    simp only [sortN, Node.grp.injEq]
+    rw [sortL_map, sortL_map]
+    have hfix : (arrange fold (ks.map (sortN fold))).map (sortN fold) = arrange fold (ks.map (sortN fold)) := by
+      apply map_eq_self.2
+      intro x hx
+      obtain ⟨k, hk, rfl⟩ := List.mem_map.1 ((mem_arrange fold).1 hx)
+      exact ih k hk
+    rw [hfix, arrange_arrange]
+
+/-- **sortG_idem**: `sorted()` of a sorted sibling list changes nothing. -/
+theorem sortG_idem (ks : List Node) : sortG fold (sortG fold ks) = sortG fold ks := by
+  have := sortN_idem fold (.grp ks)
+  simpa [sortN, sortG] using this
+
+theorem skeyL_cc (a b : Node) (r : List Node) :
+    skeyL fold (a :: b :: r) = skey fold a ++ (',' :: skeyL fold (b :: r)) := by
+  simp only [skeyL]
+
+theorem skeyL_map_congr {f : Node → Node} : ∀ {ks : List Node}, (∀ k ∈ ks, skey fold (f k) = skey fold k) →
+    skeyL fold (ks.map f) = skeyL fold ks
+  | [], _ => rfl
+  | [a], h => by simp [skeyL, h a]
+  | a :: b :: r, h => by
+    have ih := skeyL_map_congr (f := f) (ks := b :: r) (fun k hk => h k (List.mem_cons_of_mem _ hk))
+    simp only [List.map_cons] at ih ⊢
+    rw [skeyL_cc, skeyL_cc, h a (by simp), ih]
+
+theorem skey_erase : ∀ n, skey fold (erase n) = skey fold n := by
+  apply node_ind
+  · intro t; rfl
+  · intro ks ih
+    simp only [erase, skey, eraseL_map]
+    rw [skeyL_map_congr fold ih]
+
+theorem leKey_erase (a b : Node) : leKey fold (erase a) (erase b) = leKey fold a b := by
+  unfold leKey; rw [skey_erase, skey_erase, str_erase, str_erase]
+
+theorem insertBy_map (le : Node → Node → Bool) (f : Node → Node) (hle : ∀ a b, le (f a) (f b) = le a b)
+    (x : Node) : ∀ l : List Node, insertBy le (f x) (l.map f) = (insertBy le x l).map f
+  | [] => rfl
+  | y :: ys => by
+    simp only [List.map_cons, insertBy, hle]
+    split
+    · rfl
+    · simp [insertBy_map le f hle x ys]
+
+theorem isort_map (le : Node → Node → Bool) (f : Node → Node) (hle : ∀ a b, le (f a) (f b) = le a b) :
+    ∀ l : List Node, isort le (l.map f) = (isort le l).map f
+  | [] => rfl
+  | x :: xs => by simp only [List.map_cons, isort, isort_map le f hle xs, insertBy_map le f hle]
+
+theorem arrange_map_erase (l : List Node) : arrange fold (l.map erase) = (arrange fold l).map erase := by
+  have ht : (isTag ∘ erase) = isTag := by funext n; cases n <;> simp [erase, isTag]
+  have hgp : (isGrp ∘ erase) = isGrp := by funext n; cases n <;> simp [erase, isGrp]
+  unfold arrange
+  rw [List.filter_map, List.filter_map, ht, hgp, isort_map _ _ (leKey_erase fold), isort_map _ _ (leKey_erase fold),
+    List.map_append]
+
+theorem sortN_erase : ∀ n, sortN fold (erase n) = erase (sortN fold n) := by
+  apply node_ind
+  · intro t; simp [sortN, erase]
+  · intro ks ih
+    simp only [erase, sortN, Node.grp.injEq]
+    rw [sortL_map, sortL_map, eraseL_map, eraseL_map, List.map_map,
+      List.map_congr_left (g := erase ∘ sortN fold) (fun k hk => by simpa using ih k hk),
+      ← List.map_map, arrange_map_erase]
+
+/-- **sortG_eraseL**: sorting does not look at the bookkeeping fields. -/
+theorem sortG_eraseL (ks : List Node) : sortG fold (eraseL ks) = eraseL (sortG fold ks) := by
+  have := sortN_erase fold (.grp ks)
+  simpa [sortN, sortG, erase] using this
+
+/-- an entry as `accept` stores it: content in sorted form, tags fresh -/
+def Stored (e : Entry) : Prop := sortG fold e.content = e.content ∧ eraseL e.content = e.content
+
+/-- **newEntry_stored**: what `accept` stores is in stored form. -/
+theorem newEntry_stored (dt : Tag) (ks : List Node) : Stored fold (newEntry fold dt ks) := by
+  refine ⟨?_, eraseL_eraseL _⟩
+  show sortG fold (eraseL (sortG fold (contentOf ks))) = eraseL (sortG fold (contentOf ks))
+  rw [sortG_eraseL, sortG_idem]
+
+end
+
+/-! ## "Equal up to sibling order" and the sorted comparison
+
+Two distinct siblings tie under the sort key `(_sort_key, str)` exactly when they have the same canonical key
+and the same printout (`leKey_antisymm`).  Tied TAGS are always `==` (`HedTag.__eq__` compares the folded
+printout), so their relative order is invisible to the comparison.  Tied GROUPS are `==` whenever a printout
+determines the tree, which holds for everything the parser builds (no tag text contains `,` `(` `)`), but not
+for arbitrary model trees (`sortG_perm_needs_hypothesis`); that is the one hypothesis left below. -/
+
+section
+variable (fold : Str → Str)
+
+/-- the sort key as a pair, and the tuple order on it -/
+def ckey (n : Node) : Str × Str := (skey fold n, str n)
+def leP (a b : Str × Str) : Prop := strLe a.1 b.1 = true ∧ (a.1 = b.1 → strLe a.2 b.2 = true)
+
+theorem leP_antisymm (a b : Str × Str) (h1 : leP a b) (h2 : leP b a) : a = b := by
+  have hk := strLe_antisymm _ _ h1.1 h2.1
+  have hs := strLe_antisymm _ _ (h1.2 hk) (h2.2 hk.symm)
+  cases a; cases b; simp_all
+
+/-- two sorted arrangements of the same siblings carry the same keys (hence printouts) position by position -/
+theorem sorted_keys_eq {l l' : List Node} (hp : l.Perm l')
+    (h1 : l.Pairwise (fun a b => leKey fold a b = true)) (h2 : l'.Pairwise (fun a b => leKey fold a b = true)) :
+    l.map (ckey fold) = l'.map (ckey fold) := by
+  apply List.Perm.eq_of_pairwise (le := leP) (fun a b _ _ => leP_antisymm a b)
+  · rw [List.pairwise_map]; exact h1.imp (fun h => (leKey_iff fold _ _).1 h)
+  · rw [List.pairwise_map]; exact h2.imp (fun h => (leKey_iff fold _ _).1 h)
+  · exact hp.map _
+
+theorem eqvL_of_keys : ∀ (l l' : List Node), l.map (ckey fold) = l'.map (ckey fold) →
+    (∀ a ∈ l, ∀ b ∈ l', str a = str b → eqv fold a b = true) → eqvL fold l l' = true
+  | [], [], _, _ => by simp [eqvL]
+  | [], _ :: _, h, _ => by simp at h
+  | _ :: _, [], h, _ => by simp at h
+  | a :: l, b :: l', h, H => by
+    simp only [List.map_cons, List.cons.injEq] at h
+    have hs : str a = str b := congrArg Prod.snd h.1
+    simp only [eqvL, H a (by simp) b (by simp) hs, Bool.true_and]
+    exact eqvL_of_keys l l' h.2 (fun x hx y hy => H x (List.mem_cons_of_mem _ hx) y (List.mem_cons_of_mem _ hy))
+
+theorem eqvL_append : ∀ (a a' b b' : List Node), eqvL fold a a' = true → eqvL fold b b' = true →
+    eqvL fold (a ++ b) (a' ++ b') = true
+  | [], [], _, _, _, h => by simpa using h
+  | [], _ :: _, _, _, h, _ => by simp [eqvL] at h
+  | _ :: _, [], _, _, h, _ => by simp [eqvL] at h
+  | x :: a, y :: a', b, b', h, hb => by
+    simp only [eqvL, Bool.and_eq_true] at h
+    simp only [List.cons_append, eqvL, h.1, Bool.true_and]
+    exact eqvL_append a a' b b' h.2 hb
+
+/-- tied tags are `==` -/
+theorem tie_tags_eqv (a b : Node) (ha : isTag a = true) (hb : isTag b = true) (h : str a = str b) :
+    eqv fold a b = true := by
+  cases a <;> cases b <;> simp_all [isTag, eqv, Tag.eqv, str]
+
+/-- **sortG_perm_eqv_partial**: if the recursively sorted members of two sibling lists are permutations of each
+other, their `sorted()` forms are `==` element by element — provided sorted sub-GROUPS with the same printout
+are `==` (tags need no such proviso). -/
+theorem sortG_perm_eqv_partial (ks ks' : List Node) (hp : (ks.map (sortN fold)).Perm (ks'.map (sortN fold)))
+    (hG : ∀ a ∈ ks.map (sortN fold), ∀ b ∈ ks.map (sortN fold), isGrp a = true → isGrp b = true →
+      str a = str b → eqv fold a b = true) :
+    eqvL fold (sortG fold ks) (sortG fold ks') = true := by
+  unfold sortG arrange
+  rw [sortL_map, sortL_map]
+  have sub : ∀ (p : Node → Bool) (x : Node) (l : List Node), x ∈ isort (leKey fold) (l.filter p) → x ∈ l ∧ p x = true :=
+    fun p x l hx => List.mem_filter.1 ((isort_perm _ _).mem_iff.1 hx)
+  apply eqvL_append
+  · apply eqvL_of_keys
+    · exact sorted_keys_eq fold (((isort_perm _ _).trans (hp.filter _)).trans (isort_perm _ _).symm)
+        (isort_pairwise fold _) (isort_pairwise fold _)
+    · intro a ha b hb h
+      exact tie_tags_eqv fold a b (sub _ a _ ha).2 (sub _ b _ hb).2 h
+  · apply eqvL_of_keys
+    · exact sorted_keys_eq fold (((isort_perm _ _).trans (hp.filter _)).trans (isort_perm _ _).symm)
+        (isort_pairwise fold _) (isort_pairwise fold _)
+    · intro a ha b hb h
+      exact hG a (sub _ a _ ha).1 b (hp.mem_iff.2 (sub _ b _ hb).1) (sub _ a _ ha).2 (sub _ b _ hb).2 h
+
+/-- **sortG_eq_perm**: conversely (no proviso) equal `sorted()` forms mean that the recursively sorted members are
+permutations of each other; with `sortN_idem` and `sort_perm` this makes `sortN a = sortN b` the relation
+"equal up to sibling order at every depth". -/
+theorem sortG_eq_perm (ks ks' : List Node) (h : sortG fold ks = sortG fold ks') :
+    (ks.map (sortN fold)).Perm (ks'.map (sortN fold)) :=
+  ((sort_perm fold ks).1.symm.trans (h ▸ List.Perm.refl _)).trans (sort_perm fold ks').1
+
+/-- **defexpand_accept_sound**: whatever the (repaired) check accepts is the expansion up to sibling order and
+`==`: some arrangement of the sorted members of the written group is `==`, element by element, to some
+arrangement of the sorted members of `[tag, content[# := v]]`.  No proviso. -/
+theorem defexpand_accept_sound (dd : DefDict) (t : Tag) (ks : List Node)
+    (h : checkDefExpand fold true dd t (some ks) = []) :
+    ∃ cs p q, expansion fold dd t = .ok cs ∧ p.Perm (ks.map (sortN fold)) ∧
+      q.Perm ((Node.tag t :: cs).map (sortN fold)) ∧ eqvL fold p q = true := by
+  obtain ⟨cs, he, hq⟩ := (defexpand_accept_iff fold dd t ks).1.1 h
+  exact ⟨cs, _, _, he, (sort_perm fold ks).1, (sort_perm fold _).1, hq⟩
+
+end
+
+/-- **defexpand_perm_partial**: the repaired check accepts every Def-expand group whose (recursively sorted)
+members are a permutation of the (recursively sorted) expected members `[tag, content[# := v]]` — every group
+equal to the expansion up to sibling order, placeholder plugged in — provided sorted sub-groups of the written
+group with the same printout are `==` (true of every parsed annotation; see the section comment above). -/
+theorem defexpand_perm_partial (fold : Str → Str) (dd : DefDict) (t : Tag) (ks cs : List Node)
+    (he : expansion fold dd t = .ok cs)
+    (hp : (ks.map (sortN fold)).Perm ((Node.tag t :: cs).map (sortN fold)))
+    (hG : ∀ a ∈ ks.map (sortN fold), ∀ b ∈ ks.map (sortN fold), isGrp a = true → isGrp b = true →
+      str a = str b → eqv fold a b = true) :
+    checkDefExpand fold true dd t (some ks) = [] := by
+  rw [(defexpand_accept_iff fold dd t ks).1]
+  exact ⟨cs, he, sortG_perm_eqv_partial fold ks _ hp hG⟩
 
 /-! ## Gathering definitions from Def-expand groups (`DefExpandGatherer._handle_known_definition`) -/
 
@@ -1661,6 +1889,101 @@ theorem gather_mismatch_reported (st : GState) (t : Tag) (ks c : List Node) (b :
   unfold gatherStep; simp [he, hc]
 end
 
+section
+variable (fold : Str → Str)
+
+/-- the Def-expand tag that an expansion of the value-free definition `e` carries -/
+def useTag (e : Entry) : Tag := { base := .defExpand, ext := '/' :: e.name }
+
+/-- the (tag, group) pair `expand_defs` produces for a use of the value-free definition `e` -/
+def usePair (e : Entry) : Tag × List Node := (useTag e, [.tag (useTag e), .grp e.content])
+
+/-- a value-free definition as `accept` stores it: sorted fresh content (not empty), key = folded name,
+name without a slash -/
+structure ValueFree (e : Entry) : Prop where
+  stored : Stored fold e
+  content : e.content ≠ []
+  takes : e.takes = false
+  key : fold e.name = e.key
+  name : ¬ '/' ∈ e.name
+
+/-- **newEntry_valueFree**: a definition without `/#` that `accept` stores with a content is of that form. -/
+theorem newEntry_valueFree (dt : Tag) (ks : List Node) (h : Acceptable dt ks)
+    (ht : (stripValue dt.extension).2 = false) (hc : (newEntry fold dt ks).content ≠ []) :
+    ValueFree fold (newEntry fold dt ks) :=
+  ⟨newEntry_stored fold dt ks, hc, ht, rfl, h.nameSlash⟩
+
+theorem takeWhile_no_slash : ∀ s : Str, ¬ '/' ∈ s → s.takeWhile (· != '/') = s
+  | [], _ => rfl
+  | c :: r, h => by
+    have hc : c ≠ '/' := fun e => h (by simp [e])
+    have hr : ¬ '/' ∈ r := fun e => h (by simp [e])
+    have hb : (c != '/') = true := by simp [hc]
+    simp [List.takeWhile, hb, takeWhile_no_slash r hr]
+
+theorem useTag_facts (e : Entry) (h : ¬ '/' ∈ e.name) :
+    labelOf (useTag e) = e.name ∧ (useTag e).extension.contains '/' = false := by
+  refine ⟨?_, ?_⟩
+  · simp [labelOf, Tag.extension, useTag, takeWhile_no_slash e.name h]
+  · simpa [Tag.extension, useTag] using h
+
+/-- what `expand_defs` puts in place of `Def/name` for a value-free definition with content -/
+theorem expansion_valuefree (dd : DefDict) (t : Tag) (e : Entry)
+    (hl : lookup dd (fold (labelOf t)) = some e) (ht : e.takes = false) (hv : valueOf t = [])
+    (hc : e.content ≠ []) : expansion fold dd t = .ok [.grp e.content] := by
+  unfold expansion
+  cases hcc : e.content with
+  | nil => exact absurd hcc hc
+  | cons a r => simp [hl, ht, hv, hcc]
+
+/-- **gather_roundtrip_step**: gathering the group that expansion produces for a use of a value-free
+definition not yet known adds exactly that definition (same key, name, content, no placeholder). -/
+theorem gather_roundtrip_step (g : Bool) (st : GState) (e : Entry) (hv : ValueFree fold e)
+    (hl : lookup st.dd e.key = none) :
+    gatherStep fold g st (usePair e).1 (usePair e).2 = .ok { st with dd := st.dd ++ [e] } := by
+  obtain ⟨hlab, hext⟩ := useTag_facts e hv.name
+  have he : expansion fold st.dd (useTag e) = .noEntry := by
+    unfold expansion; rw [hlab, hv.key, hl]
+  have hc : (groupsOf (sortG fold [.tag (useTag e), .grp e.content])).head? = some (sortG fold e.content) := by
+    have e2 : ∀ X : List Node, arrange fold [Node.tag (useTag e), Node.grp X] = [Node.tag (useTag e), Node.grp X] := by
+      intro X; simp [arrange, List.filter, isTag, isGrp, isort, insertBy]
+    have e1 : sortG fold [Node.tag (useTag e), Node.grp e.content] =
+        [Node.tag (useTag e), Node.grp (sortG fold e.content)] := by
+      show arrange fold (sortL fold [Node.tag (useTag e), Node.grp e.content]) = _
+      rw [show sortL fold [Node.tag (useTag e), Node.grp e.content] =
+        [Node.tag (useTag e), Node.grp (sortG fold e.content)] from by simp [sortL, sortN, sortG], e2]
+    rw [e1]; simp [groupsOf]
+  have := gather_new_valuefree fold g st (useTag e) [.tag (useTag e), .grp e.content] _ he hext hc
+  simp only [usePair]
+  rw [this, hlab, hv.key, sortG_idem, hv.stored.1, hv.stored.2, ← hv.takes]
+
+theorem lookup_append_none (dd : DefDict) (e : Entry) (k : Str) (h1 : lookup dd k = none) (h2 : e.key ≠ k) :
+    lookup (dd ++ [e]) k = none := by
+  unfold lookup at h1 ⊢
+  rw [List.find?_append, h1]
+  simp [h2]
+
+/-- **gather_roundtrip**: gathering (from any state that does not know their names) the expansions of a
+list `D` of value-free definitions with distinct keys, each used once, appends exactly `D`: nothing is
+reported, nothing is ambiguous, every definition comes back as it was stored. -/
+theorem gather_roundtrip (g : Bool) : ∀ (D : DefDict) (st : GState),
+    (∀ e ∈ D, ValueFree fold e) → D.Pairwise (fun a b => a.key ≠ b.key) →
+    (∀ e ∈ D, lookup st.dd e.key = none) →
+    gatherAll fold g st (D.map usePair) = .ok { st with dd := st.dd ++ D }
+  | [], st, _, _, _ => by simp [gatherAll]
+  | e :: D, st, hv, hp, hl => by
+    obtain ⟨hpe, hpD⟩ := List.pairwise_cons.1 hp
+    have hstep := gather_roundtrip_step fold g st e (hv e (by simp)) (hl e (by simp))
+    simp only [usePair] at hstep
+    simp only [List.map_cons, gatherAll, usePair, hstep]
+    have ih := gather_roundtrip g D { st with dd := st.dd ++ [e] }
+      (fun x hx => hv x (List.mem_cons_of_mem _ hx)) hpD
+      (fun x hx => lookup_append_none st.dd e x.key (hl x (List.mem_cons_of_mem _ hx)) (hpe x hx))
+    simp only [usePair] at ih
+    rw [ih]; simp
+
+end
+
 /-- **gather_overwrite_counterexample**: the code as it is — a known takes-value definition `A/# ↦ (L/#)` met
 as `(Def-expand/A, (Red))` (no value) is silently replaced by the value-free `A ↦ (Red)` with nothing reported;
 with the proposed repair it is kept and the group is reported.  (A conflict with matching value presence —
@@ -1697,9 +2020,34 @@ example : checkDefExpand id true ddA tDeA (some [.grp [.tag tRed, .tag tBlue], .
   apply defexpand_perm_partial id ddA tDeA _ [.grp [.tag tBlue, .tag tRed]] rfl
   · rw [e]; exact List.Perm.swap _ _ _
   · rw [e]
-    intro a ha b hb h
+    intro a ha b hb hga hgb _
     simp only [List.mem_cons, List.not_mem_nil, or_false] at ha hb
-    rcases ha with rfl | rfl <;> rcases hb with rfl | rfl <;> first | rfl | exact absurd h (by decide)
+    rcases ha with rfl | rfl <;> rcases hb with rfl | rfl <;>
+      first | exact eqv_refl id _ | exact absurd hga (by decide) | exact absurd hgb (by decide)
+
+/-- placeholder case (fix ab4569a): `(Definition/S/#, (Label/#, Label/Middle))`, stored sorted with `#` in place;
+with the value `Zulu` the plugged tag belongs after its sibling, and the group `expand_defs()` produces
+(stored order) as well as its permutation are accepted -/
+example :
+    let lh : Tag := { name := ['L'], ext := ['/', '#'], org := ['l', '#'] }
+    let lm : Tag := { name := ['L'], ext := ['/', 'M'], org := ['l', 'm'] }
+    let lz : Tag := { name := ['L'], ext := ['/', 'Z'], org := ['l', 'z'] }
+    let dd : DefDict := [⟨['S'], ['S'], [.tag lh, .tag lm], true⟩]
+    let t : Tag := { base := .defExpand, ext := ['/', 'S', '/', 'Z'], org := ['t'] }
+    checkDefExpand id true dd t (some [.tag t, .grp [.tag lz, .tag lm]]) = [] ∧
+    checkDefExpand id true dd t (some [.grp [.tag lm, .tag lz], .tag t]) = [] ∧
+    checkDefExpand id false dd t (some [.tag t, .grp [.tag lm, .tag lz]]) = [.defExpandInvalid] := by
+  decide
+
+/-- the hypotheses of `gather_roundtrip` hold for `ddA`, and the round trip gives it back -/
+example : ∀ e ∈ ddA, ValueFree id e := by
+  intro e he
+  simp only [ddA, List.mem_singleton] at he
+  subst he
+  exact ⟨⟨rfl, rfl⟩, by simp, rfl, rfl, by decide⟩
+example : ((gatherAll id false {} (ddA.map usePair)).toOption.map
+    (fun st => (st.dd.map (fun e => (e.key, String.ofList (strL e.content), e.takes)), st.errors.length,
+      st.ambiguous.length))) = some ([(['A'], "Blue,Red", false)], 0, 0) := by decide
 
 example : WF { kids := [.tag tDefA] } := wf_fresh [.tag tDefA]
 example : sErrL [.tag tDefA] = false := by decide
